@@ -3,9 +3,9 @@ from vverif import seq
 from vverif.core import Result, HarnessError
 
 LEVEL = 'exploration'
-RULE = ('every string of <= L tokens (L=4 quick over 19 tokens, L=5 thorough over 21 tokens; tokens: GET, SP, "/", '
+RULE = ('every string of <= L tokens (L=4 quick over 19 tokens, L=5 thorough over 20 tokens; tokens: GET, SP, "/", '
         '" HTTP/1.1", CRLF, LF, CR, a complete request line, a complete Host field, "a:b", HTAB, X, HTTP/12.1, NUL, VT, 0x80, '
-        '"http://h/", HTTP/1.0, 16 x "a" [, a POST request line, ":"]) is delivered to Http1::RequestParser with the '
+        '"http://h/", HTTP/1.0, 16 x "a" [, a POST request line]) is delivered to Http1::RequestParser with the '
         'client_side.cc calling protocol once in one piece and once for EVERY 2-piece split, under relaxed_header_parser '
         'on/off x request_header_max_size 64/36; the complete parser state (stage, status, method, URI, version, mime block, '
         'parsed bytes, remaining+undelivered bytes, return value) must be equal (consumed bytes are not compared between two rejections: the caller discards its buffer then); inputs of <= 8 (quick) / 10 (thorough) bytes '
